@@ -63,7 +63,7 @@ def main():
         seed = 0
     ctx = C.Ctx(pid, tier, seed)
     mod = importlib.import_module("props.%s" % pid)
-    changed = C.changed_anchor_files(getattr(mod, "ANCHORS", []))
+    changed = C.changed_anchor_files(C.anchors_for(pid, mod))
     if changed:
         ctx.boost = int(getattr(mod, "BOOST", 6))
         ctx.notes.append("anchored source changed since the model was last validated (%s): quick tier deepened x%d"
